@@ -7,7 +7,7 @@ macro_rules! dt_unit {
     ($holds:ident, $mustpanic:ident, $method:ident, $per:expr, $sign:expr) => {
         /// target representable => returns exactly that instant, offset unchanged
         pub fn $holds(d: i32, n: u64, off: i32, k: u32) {
-            assume(n < NPD as u64 && valid_off(off));
+            assume(n < NPD as u64); assume(off > -86_400); assume(off < 86_400);
             let target = inst(d, n) + ($sign as i128) * (k as i128) * ($per as i128);
             assume(in_range(target));
             let r = dt(d, n, off).$method(k);
@@ -17,7 +17,7 @@ macro_rules! dt_unit {
         }
         /// target not representable => never returns
         pub fn $mustpanic(d: i32, n: u64, off: i32, k: u32) {
-            assume(n < NPD as u64 && valid_off(off));
+            assume(n < NPD as u64); assume(off > -86_400); assume(off < 86_400);
             let target = inst(d, n) + ($sign as i128) * (k as i128) * ($per as i128);
             assume(!in_range(target));
             let _ = dt(d, n, off).$method(k);
@@ -43,7 +43,7 @@ macro_rules! date_days {
     ($holds:ident, $mustpanic:ident, $method:ident, $sign:expr) => {
         pub fn $holds(d: i32, k: u32) {
             let target = d as i64 + ($sign as i64) * k as i64;
-            assume(target >= i32::MIN as i64 && target <= i32::MAX as i64);
+            assume(target >= i32::MIN as i64); assume(target <= i32::MAX as i64);
             assert!((Date { days: d }).$method(k).days as i64 == target);
         }
         pub fn $mustpanic(d: i32, k: u32) {
@@ -60,14 +60,14 @@ date_days!(c04_date_sub_days_holds, c04_date_sub_days_mustpanic, sub_days, -1);
 macro_rules! dt_duration {
     ($holds:ident, $mustpanic:ident, $op:tt, $sign:expr) => {
         pub fn $holds(d: i32, n: u64, off: i32, secs: u64, ns: u32) {
-            assume(n < NPD as u64 && valid_off(off) && ns < 1_000_000_000);
+            assume(n < NPD as u64); assume(off > -86_400); assume(off < 86_400); assume(ns < 1_000_000_000);
             let target = inst(d, n) + ($sign as i128) * (secs as i128 * NPS + ns as i128);
             assume(in_range(target));
             let r = dt(d, n, off) $op Duration::new(secs, ns);
             assert!(r.nanoseconds < NPD as u64 && inst_dt(&r) == target && off_secs(r.offset) == off);
         }
         pub fn $mustpanic(d: i32, n: u64, off: i32, secs: u64, ns: u32) {
-            assume(n < NPD as u64 && valid_off(off) && ns < 1_000_000_000);
+            assume(n < NPD as u64); assume(off > -86_400); assume(off < 86_400); assume(ns < 1_000_000_000);
             let target = inst(d, n) + ($sign as i128) * (secs as i128 * NPS + ns as i128);
             assume(!in_range(target));
             let _ = dt(d, n, off) $op Duration::new(secs, ns);
@@ -80,14 +80,14 @@ dt_duration!(c04_dt_minus_duration_holds, c04_dt_minus_duration_mustpanic, -, -1
 macro_rules! dt_time {
     ($holds:ident, $mustpanic:ident, $op:tt, $sign:expr) => {
         pub fn $holds(d: i32, n: u64, off: i32, tn: u64, toff: i32) {
-            assume(n < NPD as u64 && tn < NPD as u64 && valid_off(off) && valid_off(toff));
+            assume(n < NPD as u64); assume(tn < NPD as u64); assume(off > -86_400); assume(off < 86_400); assume(toff > -86_400); assume(toff < 86_400);
             let target = inst(d, n) + ($sign as i128) * tn as i128;
             assume(in_range(target));
             let r = dt(d, n, off) $op tm(tn, toff);
             assert!(r.nanoseconds < NPD as u64 && inst_dt(&r) == target && off_secs(r.offset) == off);
         }
         pub fn $mustpanic(d: i32, n: u64, off: i32, tn: u64, toff: i32) {
-            assume(n < NPD as u64 && tn < NPD as u64 && valid_off(off) && valid_off(toff));
+            assume(n < NPD as u64); assume(tn < NPD as u64); assume(off > -86_400); assume(off < 86_400); assume(toff > -86_400); assume(toff < 86_400);
             let target = inst(d, n) + ($sign as i128) * tn as i128;
             assume(!in_range(target));
             let _ = dt(d, n, off) $op tm(tn, toff);
@@ -103,7 +103,7 @@ macro_rules! date_duration {
         pub fn $holds(d: i32, secs: u64, ns: u32) {
             assume(ns < 1_000_000_000);
             let target = d as i128 + ($sign as i128) * (secs / 86_400) as i128;
-            assume(target >= i32::MIN as i128 && target <= i32::MAX as i128);
+            assume(target >= i32::MIN as i128); assume(target <= i32::MAX as i128);
             let r = Date { days: d } $op Duration::new(secs, ns);
             assert!(r.days as i128 == target);
         }
